@@ -1480,7 +1480,14 @@ fn format_hanging_expression_(
             }
         }
         Expression::UnaryOperator { unop, expression } => {
-            let unop = format_unop(ctx, unop, shape);
+            // The operator may be the leftmost token of the whole expression: comments in front of it are then indented
+            // like the expression itself, not like its hanging continuation lines
+            let unop_shape = if let Some(lhs_hang) = lhs_range {
+                lhs_hang.required_shape(shape, &expression_range)
+            } else {
+                shape
+            };
+            let unop = format_unop(ctx, unop, unop_shape);
             let shape = shape + strip_leading_trivia(&unop).to_string().len();
             let expression = format_hanging_expression_(
                 ctx,
